@@ -161,7 +161,12 @@ def coqproject_args():
         if t[0] in ("-Q", "-R"):
             args += [t[0], t[1], t[2]]
         elif t[0] == "-arg":
-            args.append(t[1])
+            i = 0
+            while i + 1 < len(t):
+                if t[i] == "-arg":
+                    args.append(t[i + 1]); i += 2
+                else:
+                    i += 1
     return args
 
 def build_driver():
